@@ -921,7 +921,7 @@ class EventResult(BaseModel, Generic[T_EventResultType]):
                 else:
                     # cast the return value to the expected type using TypeAdapter
                     try:
-                        if issubclass(self.result_type, BaseModel):
+                        if isinstance(self.result_type, type) and issubclass(self.result_type, BaseModel):
                             # if expected result type is a pydantic model, validate it with pydantic
                             validated_result = self.result_type.model_validate(result)
                         else:
@@ -933,8 +933,10 @@ class EventResult(BaseModel, Generic[T_EventResultType]):
                         self.result = cast(T_EventResultType, validated_result)
 
                     except Exception as cast_error:
+                        # result_type is not necessarily a class (e.g. int | None, Literal[...]) and may have no __name__
+                        result_type_name = getattr(self.result_type, '__name__', None) or str(self.result_type)
                         self.error = ValueError(
-                            f'Event handler returned a value that did not match expected event_result_type: {self.result_type.__name__}({result}) -> {type(cast_error).__name__}: {cast_error}'
+                            f'Event handler returned a value that did not match expected event_result_type: {result_type_name}({result}) -> {type(cast_error).__name__}: {cast_error}'
                         )
                         self.result = None
                         self.status = 'error'
